@@ -31,6 +31,10 @@ type CompositeSequenceDFA struct {
 
 	// parts are the original pattern parts (for reference)
 	parts []*charClassPart
+
+	// skipSound: after a failed attempt no match can start inside the bytes it
+	// consumed, so the search may resume at the byte that killed it
+	skipSound bool
 }
 
 // NewCompositeSequenceDFA creates a specialized DFA for composite patterns.
@@ -46,15 +50,18 @@ func NewCompositeSequenceDFA(re *syntax.Regexp) *CompositeSequenceDFA {
 	// maxMatch=1, or \w{2,8}) requires counting characters per part, which
 	// the DFA doesn't support — fall back to CompositeSearcher backtracking.
 	for _, p := range parts {
-		if p.minMatch == 0 {
-			return nil // Star quantifiers need more complex handling
+		if p.minMatch != 1 {
+			// Star quantifiers need more complex handling; a minimum above 1
+			// ({2,}) requires character counting like a bounded maximum does:
+			// a configuration only records whether the minimum has been met.
+			return nil
 		}
 		if p.maxMatch > 0 {
 			return nil // Bounded max requires character counting
 		}
 	}
 
-	d := &CompositeSequenceDFA{parts: parts}
+	d := &CompositeSequenceDFA{parts: parts, skipSound: compositeSkipIsSound(parts)}
 	d.buildByteClasses(parts)
 	d.buildDFASubsetConstruction(parts)
 
@@ -309,7 +316,7 @@ func (d *CompositeSequenceDFA) SearchAt(haystack []byte, at int) (int, int, bool
 				if lastAcceptEnd > 0 {
 					return matchStart, lastAcceptEnd, true
 				}
-				start = pos - 1 // Skip: dead byte at pos, outer loop start++ → pos
+				start = d.resumeAfter(haystack, start, pos)
 				goto nextStart
 			}
 			if accepting[state] {
@@ -324,7 +331,7 @@ func (d *CompositeSequenceDFA) SearchAt(haystack []byte, at int) (int, int, bool
 				if lastAcceptEnd > 0 {
 					return matchStart, lastAcceptEnd, true
 				}
-				start = pos // Skip: dead byte at pos+1
+				start = d.resumeAfter(haystack, start, pos+1)
 				goto nextStart
 			}
 			if accepting[state] {
@@ -339,7 +346,7 @@ func (d *CompositeSequenceDFA) SearchAt(haystack []byte, at int) (int, int, bool
 				if lastAcceptEnd > 0 {
 					return matchStart, lastAcceptEnd, true
 				}
-				start = pos + 1 // Skip: dead byte at pos+2
+				start = d.resumeAfter(haystack, start, pos+2)
 				goto nextStart
 			}
 			if accepting[state] {
@@ -354,7 +361,7 @@ func (d *CompositeSequenceDFA) SearchAt(haystack []byte, at int) (int, int, bool
 				if lastAcceptEnd > 0 {
 					return matchStart, lastAcceptEnd, true
 				}
-				start = pos + 2 // Skip: dead byte at pos+3
+				start = d.resumeAfter(haystack, start, pos+3)
 				goto nextStart
 			}
 			if accepting[state] {
@@ -392,12 +399,29 @@ func (d *CompositeSequenceDFA) SearchAt(haystack []byte, at int) (int, int, bool
 		}
 
 		// Skip: all bytes up to pos already processed, advance outer loop
-		start = pos - 1
+		start = d.resumeAfter(haystack, start, pos)
 
 	nextStart:
 	}
 
 	return -1, -1, false
+}
+
+// resumeAfter returns the value for the outer loop variable (the loop adds 1)
+// after the attempt that began at start died on the byte at dead (or ran out
+// of input there). When the classes allow it the search resumes at the dead
+// byte. Otherwise only the starts inside the leading run of first-class bytes
+// are ruled out (the attempt from the beginning of the run subsumes them).
+func (d *CompositeSequenceDFA) resumeAfter(haystack []byte, start, dead int) int {
+	if d.skipSound {
+		return dead - 1
+	}
+	first := &d.parts[0].membership
+	r := start + 1
+	for r < dead && first[haystack[r]] {
+		r++
+	}
+	return r - 1
 }
 
 // firstPartClasses returns a lookup table indicating which bytes can start a match.
@@ -419,7 +443,7 @@ func IsCompositeSequenceDFAPattern(re *syntax.Regexp) bool {
 
 	// Check all parts have minMatch >= 1 and maxMatch == 0 (unbounded)
 	for _, p := range parts {
-		if p.minMatch == 0 {
+		if p.minMatch != 1 {
 			return false
 		}
 		if p.maxMatch > 0 {
@@ -427,5 +451,28 @@ func IsCompositeSequenceDFAPattern(re *syntax.Regexp) bool {
 		}
 	}
 
+	return true
+}
+
+// compositeSkipIsSound reports whether SearchAt may resume at the byte that
+// killed an attempt, i.e. whether no match can start inside the bytes a failed
+// attempt has consumed. With two parts A+B+ that always holds (the consumed
+// bytes are a run of A, every later start in it fails at the same byte). With
+// three or more parts it holds when the first class is disjoint from all later
+// ones: then a start inside the consumed bytes lies in the leading run of the
+// first class, and the attempt from the beginning of that run subsumes it.
+// Otherwise a later start can succeed where the earlier one failed
+// ([ax]+[by]+[ax]+[cz]+ on "abaabac" matches at 2, not at 0).
+func compositeSkipIsSound(parts []*charClassPart) bool {
+	if len(parts) <= 2 {
+		return true
+	}
+	for _, p := range parts[1:] {
+		for b := 0; b < 256; b++ {
+			if parts[0].membership[b] && p.membership[b] {
+				return false
+			}
+		}
+	}
 	return true
 }
